@@ -412,3 +412,13 @@ for _pid, _txt in _ACROSS.items():
 # leave no goroutine behind - that stage of C05 also decides this part of C18 (the other run-level
 # stages of C05 are not shared: they carry C05's known finding, which is not about the runner)
 PROPS["C18"]["stages"] = PROPS["C18"]["stages"] + [st for st in PROPS["C05"]["stages"] if st["name"] == "c05precancel"]
+
+# the tick interval a config-file stage is built with (the configured iteration frequency, or the
+# distribution's 100 ms sub-tick) is part of the parsed plan: the config stage of C14/C15 also
+# decides that part of C09 (cadence of a file stage) and of C12 (the interval a distributed stage
+# function is to be called at)
+_CFG_STAGE = dict(name="c14config", pkg="c14", test="TestC14Config", access=[FILE_ACCESS], timeout_quick=300, timeout_thorough=3000)
+PROPS["C09"]["stages"] = PROPS["C09"]["stages"] + [_CFG_STAGE]
+PROPS["C12"]["stages"] = PROPS["C12"]["stages"] + [_CFG_STAGE]
+PROPS["C09"]["rule"] += "; the plan parsed from config files (stage c14config): every stage's tick interval against the model's"
+PROPS["C12"]["rule"] += "; the plan parsed from config files (stage c14config): a distributed stage is ticked at the distribution's sub-tick interval"
